@@ -135,6 +135,7 @@ type Sim struct {
 	last      *Task
 	lastClass int
 	started   bool
+	stallNs   int64 // virtual time spent in injected stalls
 	skew      int64 // logical clock skew (ns) added to time.Now for kevo code
 
 	// OnStep, if set, is called by the scheduler after every synctest.Wait
@@ -703,7 +704,7 @@ func (s *Sim) loop() {
 			s.out.Truncated = true
 			return
 		}
-		if s.vnow() > int64(s.cfg.MaxVirtual) {
+		if s.vnow()-s.stallNs > int64(s.cfg.MaxVirtual) {
 			s.out.Hang = true
 			s.out.Detail = s.describe()
 			return
@@ -731,6 +732,7 @@ func (s *Sim) loop() {
 			}
 			s.hashIn(uint64(d), 3, 3)
 			s.addTrace(traceRec{step: s.step, task: -1, class: -1, vt: s.vnow(), note: fmt.Sprintf("stall %s", d)})
+			s.stallNs += int64(d) // injected stalls are not charged to the hang budget
 			tm := time.NewTimer(d)
 			<-tm.C
 			// tasks woken meanwhile have re-parked or will; loop re-waits
